@@ -199,3 +199,44 @@ def check_C11(tier):
         if not okk:
             raise ToolError("binding self-test failed")
     return res.finish()
+
+
+def check_C09(tier):
+    res = Result("C09", tier, "model_checking")
+    res.rule = ("Verdict part: MainEvent.tla decides Ok/Err of try_from_banks from the bank bytes (as in C10). Totality part "
+                "(sampled): no record may carry a panic/abort/hang outcome (Pipeline.tla admits none) and a vertex must "
+                "be finite. E1/E2: MC_EventShapes enumerates event shapes (wire waveform class x pad class x channel mask "
+                "x one structural extra: i16::MIN/MAX/alternating samples, lengths 64/delay/delay+1, requested samples "
+                "0/1/delay/delay+1/511, one / all 79 / only reset+FPN channels, duplicated, dropped, foreign, unknown, "
+                "missing banks); every shape is concretised into CRC-valid, baseline-valid packets. Also random names "
+                "(incl. non-ASCII, wrong lengths) with random bytes over several run numbers, and simulated 1-4 track "
+                "events, plain and re-encoded with an extreme wire or pad sample, a dropped or duplicated bank. Each "
+                "event goes through try_from_banks, timestamp, avalanches and vertex in the overflow-checked profile "
+                "(thorough: both profiles). distinct_nontrivial = distinct (shape | kind, verdict) pairs")
+    res.assumptions = ["MainEvent.tla for the verdicts (only for events whose bytes are logged, < 20 kB)",
+                       "'never panics' is decided by exploration, not exhaustively"]
+    full_config()
+    cfg = write_cfg("MC_EventShapes_" + tier, constants={"Tier": '"%s"' % tier}, invariants=["Export"])
+    r = tlc_model_check("MC_EventShapes", cfg, "mc_shapes_" + tier, expect_actions=["Pick"], workers=4)
+    res.add_mc(r)
+    shapes = os.path.join(BUILD, "traces", "C09_shapes.ndjson")
+    ns = extract_replay_to_file(r, shapes)
+    profiles = ["checked"] if tier == "quick" else ["checked", "release"]
+    kinds = set()
+    for prof in profiles:
+        trace = os.path.join(BUILD, "traces", "C09_trace_%s.ndjson" % prof)
+        nrand, nsim = (400, 25) if tier == "quick" else (20000, 2000)
+        res.evaluations += run_vh(["crash", "--data", os.path.join(REPO, "physics", "data"), "--in", shapes, "--n", str(nrand),
+                                   "--nsim", str(nsim), "--seed", str(seed())], trace, profile=prof, timeout=7200)
+        res.profiles.add(prof)
+        for k, part in enumerate(split_file(trace, 3000)):
+            validate_dec_trace(res, part, "C09_%s_%d" % (prof, k), profile=prof, module="Trace_MainEvent", descriptor=evt_descriptor)
+        with open(trace) as f:
+            for line in f:
+                rec = json.loads(line)
+                kinds.add((rec.get("kind"), rec.get("verdict")))
+                if len(res.samples) < 3 and rec.get("kind", "").startswith("sim"):
+                    res.add_sample(slim(rec, 8), 3)
+    res.distinct = len(kinds)
+    res.extra["shapes"] = ns
+    return res.finish()
